@@ -99,6 +99,63 @@ def run(tier):
                                "implementation_trace": " ".join(evs)[:2500], "standalone_model_trace": " ".join(mev)[:2500],
                                "first_difference": {"position": pos, "iteration_k": evs[pos] if pos < len(evs) else "<end>", "standalone": mev[pos] if pos < len(mev) else "<end>"},
                                "why": "execution %d of a %d-iteration run differs from the stand-alone execution of the same schedule from the initial world (model run_prog_replay)" % (k, nit)})
+    # ---- every execution of a run, replayed ALONE in a fresh run from its own recorded schedule (seed included), is the same
+    # execution: same decisions, same operation results, same values drawn from the data source
+    rfeats = ("spawn", "join", "yield", "atomic", "rand", "rand", "mutex", "sem")
+    rcases = []
+    for i in range(60 if tier == "quick" else 1200):
+        objs, bodies = gen_prog.gen_program(rng, max_bodies=3, max_ops=6, features=rfeats)
+        if "rn" not in bodies:
+            bl = bodies.split("|")
+            bl[0] = "rn" if bl[0] == "-" else "rn;" + bl[0]
+            bodies = "|".join(bl)
+        kind = ["random", "pct", "urw", "random", "dfs"][i % 5]
+        rcases.append("replay %s %d %d %d none %s %s" % (kind, rng.getrandbits(64), rng.randint(1, 3), rng.choice([2, 3, 5]), objs, bodies))
+    ro = ctx.run_impl("prog", rcases)
+    ctx.evaluations += len(rcases)
+    nalone = 0
+    for c, o in zip(rcases, ro):
+        if o.endswith("ALLEQ"):
+            nalone += int(o.split(" ")[0][2:])
+            ctx.note_nontrivial(c)
+        elif o.startswith("SKIP"):
+            pass
+        else:
+            nfail += 1
+            if nfail <= 6:
+                ctx.violation({"layer": "prog", "cases": [c], "implementation_answer": o[:2500],
+                               "why": "an execution of a multi-execution run is not reproduced when its recorded schedule (with its seed) is replayed alone in a fresh run"})
+    ctx.cov["executions_replayed_alone"] = nalone
+    # ---- lazy statics (shuttle::lazy_static through the wrapper crate; modelled in Lang/PlOps.v lazy_get): the value of an
+    # execution is destroyed before the next execution starts and after the run
+    import gen_pl
+    multi = []
+    for _ in range(40 if tier == "quick" else 600):
+        o_, b_, _f = gen_pl.gen_program(rng, "lz")
+        multi.append("multi %s %d %d %s" % (rng.choice(["random", "random", "pct", "dfs"]), rng.getrandbits(60), rng.choice([2, 3, 5]), gen_pl.show(o_, b_)))
+    multi.append("multi random 5 4 Z,Z sp.1;lz.0;lz.1;lz.0;jn.0|lz.1;lz.0")
+    lo = ctx.run_impl("pl", multi)
+    ctx.evaluations += len(multi)
+    nlz = 0
+    for c, o in zip(multi, lo):
+        m = o.rpartition(" LZ=")
+        if not m[1]:
+            nfail += 1
+            ctx.violation({"layer": "pl", "cases": [c], "implementation_answer": o[:800], "why": "the multi-execution run produced no answer"})
+            continue
+        counts = [int(x) for x in m[2].split(",")]
+        ninit = o.count(":111:")
+        if ninit >= 2:
+            nlz += 1
+            ctx.note_nontrivial(c)
+        failed = " T=ok" not in o
+        chk = counts[:-1] if failed else counts       # the values of a failing last execution die with the process
+        if any(x != 0 for x in chk):
+            nfail += 1
+            if nfail <= 6:
+                ctx.violation({"layer": "pl", "cases": [c], "implementation_answer": o[:2000],
+                               "why": "lazy-static values of an execution are still alive when the next execution starts / after the run: alive = %s (one entry per execution start, then after the run)" % m[2]})
+    ctx.cov["runs_with_lazy_static_reinitialised"] = nlz
     for k_, v in kinds.items():
         ctx.dist("iterations." + k_, v)
     ctx.dist("runs", len(runs))
@@ -107,7 +164,9 @@ def run(tier):
                        "every third execution at a pseudo-random decision; programs use thread-locals with destructors, the harness's static Onces, and every primitive of the model.  Every execution of the run "
                        "(first, after complete ones, after abandoned ones) is compared, token by token (decisions with offered sets, draws, operation results, vector clocks, recorded schedule), with the model's "
                        "stand-alone execution of the same recorded schedule from the initial world (run_prog_replay); the number of thread-local values alive at the start of the next execution must be 0. "
-                       "distinct_nontrivial = runs with at least two executions.")
+                       "Second leg: every execution of runs under the built-in schedulers (programs that draw random values) is replayed alone in a fresh run from its recorded schedule, seed included, "
+                       "and must be the same execution, drawn values included.  Third leg: programs over shuttle lazy statics (model Lang/PlOps.v lazy_get) run for 2-5 executions; the number of lazy values "
+                       "alive at every execution start and after the run must be 0.  distinct_nontrivial = runs with at least two executions.")
     if runs:
         ctx.sample({"case": runs[0], "impl": io[0][:500]})
         ctx.sample({"case": runs[-1], "impl": io[-1][:500]})
